@@ -3488,4 +3488,94 @@ theorem go_groups (imp : String) (k : Nat) : ∀ (grps : List (List ColSpec × L
       exact this
 
 
+/-- the start positions of the groups (the union barriers `finishBranches` records for the groups after the first) -/
+def starts (c t : Nat) : List (List ColSpec × List DObj) → List (Nat × Nat)
+  | [] => []
+  | grp :: r => (c, t) :: starts (c + grp.1.length) (t + grp.2.length) r
+
+theorem starts_ends : ∀ (l : List (List ColSpec × List DObj)) (c t : Nat),
+    starts c t l ++ [(c + (l.flatMap (·.1)).length, t + (l.flatMap (·.2)).length)] = (c, t) :: ends c t l
+  | [], c, t => by simp [starts, ends]
+  | grp :: r, c, t => by
+    have ih := starts_ends r (c + grp.1.length) (t + grp.2.length)
+    simp only [starts, ends, List.flatMap_cons, List.length_append, List.cons_append, List.cons.injEq, true_and]
+    rw [← ih]
+    simp only [Nat.add_assoc]
+
+/-- columns and tables of one branch, as `finishBranches` collects them -/
+def grpOf (env : Env) (g : LGraph) (b : List Item × List FromExpr) : List ColSpec × List DObj :=
+  (b.1.map (colSpecOf env), tablesOfFrom env g b.2)
+
+theorem fb_fold (env : Env) (g : LGraph) : ∀ (l : List (List Item × List FromExpr)) (j : Nat)
+    (acc : List DObj × List ColSpec × List (Nat × Nat)), j ≠ 0 →
+    (l.zipIdx j).foldl
+      (fun (acc : List DObj × List ColSpec × List (Nat × Nat)) (b : (List Item × List FromExpr) × Nat) =>
+        let bs := if b.2 != 0 then acc.2.2 ++ [(acc.2.1.length, acc.1.length)] else acc.2.2
+        (acc.1 ++ tablesOfFrom env g b.1.2, acc.2.1 ++ b.1.1.map (colSpecOf env), bs)) acc =
+      (acc.1 ++ (l.map (grpOf env g)).flatMap (·.2), acc.2.1 ++ (l.map (grpOf env g)).flatMap (·.1),
+        acc.2.2 ++ starts acc.2.1.length acc.1.length (l.map (grpOf env g)))
+  | [], _, acc, _ => by simp [starts]
+  | b :: r, j, acc, hj => by
+    have hj' : (j != 0) = true := by simpa using hj
+    simp only [List.zipIdx_cons, List.foldl_cons, hj', if_true]
+    rw [fb_fold env g r (j + 1) _ (by omega)]
+    simp only [List.map_cons, List.flatMap_cons, grpOf, starts, List.length_append, List.append_assoc, List.cons_append,
+      List.nil_append]
+
+/-- **`finishBranches` on a non‑empty branch list**: all reads first, then one `cleanupGroup` per branch, then the wildcard
+    expansion -/
+theorem finishBranches_groups (env : Env) (g : LGraph) (b1 : List Item × List FromExpr)
+    (rest : List (List Item × List FromExpr)) :
+    finishBranches env g (b1 :: rest) =
+      (match ((b1 :: rest).map (grpOf env g)).foldlM (fun g grp => cleanupGroup env.importDefault g grp.1 grp.2 env.revStar)
+          ((((b1 :: rest).map (grpOf env g)).flatMap (·.2)).foldl addReadO g) with
+        | .ok g' => .ok (expandWildcard env.prov g')
+        | .error e => .error e) := by
+  unfold finishBranches
+  simp only [List.zipIdx_cons, List.foldl_cons, bne_self_eq_false, Bool.false_eq_true, if_false, List.nil_append,
+    List.length_nil, Nat.zero_add]
+  rw [fb_fold env g rest 1 _ (by omega)]
+  simp only [List.nil_append]
+  have hgo := go_groups env.importDefault env.revStar ((b1 :: rest).map (grpOf env g)) [] []
+    ((((b1 :: rest).map (grpOf env g)).flatMap (·.2)).foldl addReadO g)
+  simp only [List.nil_append, List.length_nil] at hgo
+  rw [← hgo]
+  unfold endOfQueryCleanup
+  have hse := starts_ends (rest.map (grpOf env g)) (b1.1.map (colSpecOf env)).length (tablesOfFrom env g b1.2).length
+  simp only [List.map_cons, List.flatMap_cons, ends, grpOf, Nat.zero_add, List.length_append] at hse ⊢
+  rw [hse]
+  rfl
+
+def branchOK : Branch → Bool
+  | .mk (.select _ its frm wh _ _) _ => noSubItems its && frm.all feOK && noSubOpt wh
+  | _ => false
+
+def opBranchOK : OpBranch → Bool
+  | .mk _ b => branchOK b
+
+theorem sqBranch_tab (env : Env) (b : Branch) (g : LGraph) (h : branchOK b = true) : sqBranch env b g = .ok g := by
+  cases b with
+  | mk q br =>
+    cases q with
+    | setop _ _ => simp [branchOK] at h
+    | withq _ _ => simp [branchOK] at h
+    | select d its frm wh grp hav =>
+      simp only [branchOK, Bool.and_eq_true] at h
+      simp only [sqBranch, sqItems_noSub env its _ (noSubI_of_noSubItems its h.1.1), sqFrom_tab env _ _ frm h.1.2,
+        sqWhere_noSub env _ wh h.2]
+
+theorem sqOpBranches_tab (env : Env) : ∀ (l : List OpBranch) (g : LGraph), l.all opBranchOK = true →
+    sqOpBranches env l g = .ok g
+  | [], _, _ => by simp only [sqOpBranches]
+  | .mk op b :: r, g, h => by
+    simp only [List.all_cons, Bool.and_eq_true, opBranchOK] at h
+    simp only [sqOpBranches, sqBranch_tab env b g h.1, sqOpBranches_tab env r g h.2]
+
+theorem exQuery_setop_tab (env : Env) (ctx : Ctx) (first : Branch) (rest : List OpBranch) (hf : branchOK first = true)
+    (hr : rest.all opBranchOK = true) :
+    exQuery env ctx (.setop first rest) =
+      finishBranches env (initHolder ctx) (branchParts first :: rest.map opBranchParts) := by
+  simp only [exQuery, sqBranch_tab env first _ hf, sqOpBranches_tab env rest _ hr]
+
+
 end SqlLineage.ColumnsExact
